@@ -132,6 +132,10 @@ func main() {
 	r := hx.Rng(*seed, 0)
 	fail := func(clause, sig, what string, ops interface{}) {
 		run.Violate(hx.Violation{Property: "C18", Clause: clause, Signature: sig, What: what, Ops: ops})
+		if clause == "kill_exact" {
+			// the NodeHost side of "a current member is never killed"
+			run.Violate(hx.Violation{Property: "C11", Clause: "member_never_killed", Signature: sig, What: what, Ops: ops})
+		}
 		if clause == "fenced_change" {
 			// C02's closed-loop argument assumes dragonboat's ordered config change on every started replica
 			run.Violate(hx.Violation{Property: "C02", Clause: "execute_step", Signature: sig, What: what, Ops: ops})
@@ -584,6 +588,18 @@ func runScenario(d *scripted, dAddr string, cfg *pb.Config, fail func(clause, si
 	inst(true, false, true, rejoined)
 	if !rejoined {
 		fail("instantiate_table", "join-after-restart-no-effect", "a join request resent to a restarted NodeHost that already holds the replica's data did not start the replica", nil)
+	}
+	// 9. a stale kill request naming another replica of the shard than the one running here must leave that one alone
+	if rejoined {
+		set(D, &pb.NodeHostRequest{Change: &pb.Request{Type: pb.Request_KILL, ShardId: sid, Members: []uint64{3}}, RaftAddress: D.Addr})
+		round(D, false)
+		time.Sleep(500 * time.Millisecond)
+		step("kill_names_another_replica")
+		if ci := info(D); ci == nil || ci.ReplicaID != 4 {
+			fail("kill_exact", "kill-stopped-another-replica", "a kill request for replica 3 stopped replica 4 of the same shard, a current member, on the NodeHost that received it", nil)
+		} else if !D.NH.HasNodeInfo(sid, 4) {
+			fail("kill_exact", "kill-erased-another-replica", "a kill request for replica 3 erased the data of replica 4 of the same shard", nil)
+		}
 	}
 }
 
